@@ -132,6 +132,8 @@ pub struct TransformerContext {
     pub events: Vec<InputEvent>,
     /// id used by top-level SVG element if local_styles is true
     pub local_style_id: Option<String>,
+    /// The previous element as written (before its attributes were evaluated)
+    prev_original: Option<SvgElement>,
     /// Config of transformer processing; updated by <config> elements
     pub config: TransformConfig,
 }
@@ -150,6 +152,7 @@ impl Default for TransformerContext {
             scope_stack: Vec::new(),
             rng: RefCell::new(Pcg32::seed_from_u64(0)),
             local_style_id: None,
+            prev_original: None,
             current_depth: 0,
             real_svg: false,
             in_specs: false,
@@ -386,7 +389,7 @@ impl TransformerContext {
     pub fn get_original_element(&self, elref: &ElRef) -> Option<&SvgElement> {
         match elref {
             ElRef::Id(id) => self.original_map.get(id),
-            ElRef::Prev => self.prev_element.as_ref(),
+            ElRef::Prev => self.prev_original.as_ref().or(self.prev_element.as_ref()),
         }
     }
 
@@ -588,6 +591,14 @@ impl TransformerContext {
 
     pub fn set_prev_element(&mut self, el: &SvgElement) {
         self.prev_element = Some(el.clone());
+        self.prev_original = None;
+    }
+
+    /// As `set_prev_element()`, with the element as written in the document (which
+    /// is what a `reuse` of `^` instantiates, as it does for an id).
+    pub fn set_prev_element_from(&mut self, el: &SvgElement, original: &SvgElement) {
+        self.prev_element = Some(el.clone());
+        self.prev_original = Some(original.clone());
     }
 
     pub fn update_element(&mut self, el: &SvgElement) {
